@@ -359,7 +359,8 @@ pub fn c16(cx: &Ctx) -> (Vec<Violation>, Cover) {
                             candidates.extend(cx.dels.iter().filter(|d| keys.contains(&d.key) && d.pre < r.pos && a.cmds[d.cmd].op == r.op && d.exp.iter().any(|e| e.inst == r.inst && e.total > 0)).map(|d| d.pre));
                             for s in r.obs.seen().iter() {
                                 if let Seen::Rem(c, e) = s {
-                                    candidates.extend(a.removals.iter().filter(|x| x.ent == *e && x.comp == *c && x.pos < r.pos && x.op == r.op && !x.by_despawn).map(|x| x.pos));
+                                    // (no restriction to the op: a removal is reported by the first poll after its component became tracked)
+                                    candidates.extend(a.removals.iter().filter(|x| x.ent == *e && x.comp == *c && x.pos < r.pos && !x.by_despawn).map(|x| x.pos));
                                 }
                             }
                         }
